@@ -1018,10 +1018,22 @@ theorem singleQubitB_spec : ∀ dx dz dr sx sz sr : Bool, ((dx && sz) ^^ (dz && 
     (actAll (singleQubitB dx dz dr sx sz sr) (unitZ 0)).z 0 = sz ∧
     (actAll (singleQubitB dx dz dr sx sz sr) (unitZ 0)).r = sr := by decide
 
-theorem singleQubitB_ok : ∀ dx dz dr sx sz sr : Bool, ∀ g ∈ singleQubitB dx dz dr sx sz sr, g.ok 1 := by
+/-- the gates of a single-qubit decomposition: Paulis, S, S†, H on that qubit. -/
+def OnQubit (q : Nat) (g : Gate) : Prop :=
+  g = .Z q ∨ g = .X q ∨ g = .Y q ∨ g = .S q ∨ g = .SDG q ∨ g = .H q
+
+theorem mem_singleQubitQ (q : Nat) : ∀ dx dz dr sx sz sr : Bool,
+    ∀ g ∈ singleQubitQ q dx dz dr sx sz sr, OnQubit q g := by
   intro dx dz dr sx sz sr g hg
+  unfold OnQubit
   cases dx <;> cases dz <;> cases dr <;> cases sx <;> cases sz <;> cases sr <;>
-    simp [singleQubitB] at hg <;> (try rcases hg with rfl | rfl | rfl | rfl) <;> simp [Gate.ok]
+    simp [singleQubitQ] at hg <;> (try rcases hg with rfl | rfl | rfl | rfl) <;> simp
+
+theorem onQubit_ok {n q : Nat} {g : Gate} (hq : q < n) (h : OnQubit q g) : g.ok n := by
+  rcases h with rfl | rfl | rfl | rfl | rfl | rfl <;> exact hq
+
+theorem singleQubitB_ok : ∀ dx dz dr sx sz sr : Bool, ∀ g ∈ singleQubitB dx dz dr sx sz sr, g.ok 1 :=
+  fun dx dz dr sx sz sr g hg => onQubit_ok (by omega) (mem_singleQubitQ 0 dx dz dr sx sz sr g hg)
 
 theorem toCircuit_one (T : Tableau) (hv : Valid 1 T) :
     (∀ g ∈ toCircuitAG04 1 T, g.ok 1) ∧ TabEq 1 (runGates (toCircuitAG04 1 T) (zeroState 1)) T := by
